@@ -974,8 +974,8 @@ SUBCHECKS = [
     SubCheck("pgm_pbm_povm", check_pgm_pbm, _ensemble_case, nt_ensemble, quick=4000, thorough=70000),
     SubCheck("pgm_bad_priors", check_bad_priors, _badprior_case, lambda c: f"badpriors:{c['which']}:{c['bad']}", quick=800, thorough=12000, shards=4),
     SubCheck("pgm_bounds", check_pgm_bounds, lambda: _ensemble_case(dmax=4, nmax=5), nt_ensemble, quick=1200, thorough=20000, case_timeout=30),
-    SubCheck("measure", check_measure, _measure_case, nt_measure, quick=8000, thorough=140000),
-    SubCheck("is_povm", check_is_povm, _ispovm_case, nt_ispovm, quick=3000, thorough=50000, shards=8),
+    SubCheck("measure", check_measure, _measure_case, nt_measure, quick=8000, thorough=140000, fuzz=8000),
+    SubCheck("is_povm", check_is_povm, _ispovm_case, nt_ispovm, quick=3000, thorough=50000, shards=8, fuzz=6000),
 ]
 
 
